@@ -38,6 +38,10 @@ FieldRT(fld, p, p2, vw, v2w) ==
             /\ (IF CanonicalNorm(fld, c) THEN c2 = c ELSE QEq(DecodeNorm(fld, c2), DecodeNorm(fld, c)))
             /\ v2w = vw
       [] fld.kind \in {"uint", "sint"} -> IntDecodeOK(fld, c, vw) /\ c2 = c /\ v2w = vw
+      [] fld.kind = "half" ->
+            LET h == NToNat(c) h2 == NToNat(c2) IN
+            /\ AcceptHalfToFloat(F32S(vw), F32M(vw), h)
+            /\ (IF HalfIsNaN(h) THEN HalfIsNaN(h2) /\ IsNaNW(v2w) ELSE h2 = h /\ v2w = vw)
       [] fld.kind = "sf" ->
             /\ SfDecodeOK(fld, c, vw)
             /\ (IF SfIsNaN(fld, NToNat(c)) THEN SfIsNaN(fld, NToNat(c2)) /\ IsNaNW(v2w) ELSE c2 = c /\ v2w = vw)
@@ -49,6 +53,9 @@ FieldPK(fld, xw, p, uw) ==          \* "ok" | "skip" | "bad"
             ELSE IF AcceptNorm(fld, c, QIn(xw), SlackExp(xw)) /\ NormDecodeOK(fld, c, uw) THEN "ok" ELSE "bad"
       [] fld.kind \in {"uint", "sint"} ->
             IF c = NLowBits(WFromLimbs(xw), fld.w) /\ IntDecodeOK(fld, c, uw) THEN "ok" ELSE "bad"
+      [] fld.kind = "half" ->
+            LET h == NToNat(c) IN
+            IF AcceptFloatToHalf(h, F32S(xw), F32M(xw)) /\ AcceptHalfToFloat(F32S(uw), F32M(uw), h) THEN "ok" ELSE "bad"
       [] fld.kind = "sf" ->
             LET code == NToNat(c) xf == FV(xw) IN
             IF IsNaNW(xw) THEN (IF SfIsNaN(fld, code) /\ IsNaNW(uw) THEN "ok" ELSE "bad")
